@@ -268,3 +268,7 @@ brk('C12', P, "                    if abs(pts[ind1] - pts[ind2]) < tol:\n       
 brk('C12', P, "                    if abs(pts[ind1] - pts[ind2]) < tol:\n                        # then", "                    if abs(pts[ind1] - pts[ind2]) < tol*(1 + abs(pts[ind1])):\n                        # then", 'relative redundancy tolerance')
 ben('C12', P, "            k = domain_lower_limit // 360\n            degs += k * 360", "            degs += 360 * (domain_lower_limit // 360)", 'inline k')
 ben('C12', B, "        if 0 <= xval <= line_length:", "        if xval >= 0 and line_length >= xval:", 'expanded chained comparison')
+
+# ---------------------------------------------------------------- C05 R05.3 zero total (semantic)
+brk('C05', P, "        if self._length == 0:\n            self._lengths = lengths  # all lengths are 0.\n        else:\n            self._lengths = [each / self._length for each in lengths]", "        self._lengths = [each / self._length for each in lengths]", 'zero-total guard removed')
+ben('C05', P, "        if self._length == 0:\n            self._lengths = lengths  # all lengths are 0.\n        else:\n            self._lengths = [each / self._length for each in lengths]", "        total = self._length\n        self._lengths = [each / total for each in lengths] if total else lengths", 'guard by truthiness of a local')
